@@ -166,3 +166,81 @@ macro_rules! c08_ilog2_lin {
         });
     };
 }
+
+/// pow with a CONCRETE power-of-two base (+-2^k) and the exponent over ALL of u32 on wide types: the squarings are evaluated by constant
+/// propagation and the conditional multiplications are products by powers of two, so the exponent loop, the sticky overflow flag, the parity-based
+/// re-signing and the landing exactly on MIN are decided at 40..320 bits.  Exact result: (+-2^k)^e = (+-1)^e * 2^(k*e).
+#[macro_export]
+macro_rules! c08_pow_pow2 {
+    ($name:ident, $unw:expr, $U:ty, $I:ty, $D:ty, $N:expr, $K:expr) => {
+        $crate::harness!($name, $unw, {
+            use $crate::util::*;
+            const W: u64 = (<$D>::BITS as u64) * $N;
+            let e: u32 = $crate::nd::nd();
+            let sh: u64 = ($K as u64) * (e as u64); // exact: k * e < 2^38
+            let j: u32 = $crate::nd::nd();
+            $crate::nd::assume((j as u64) < W);
+            // unsigned base 2^k
+            let ub = <$U>::power_of_two($K);
+            let (v, f) = ub.overflowing_pow(e);
+            let fits_u = sh < W;
+            assert!(f == !fits_u, "unsigned overflow flag: 2^(k*e) is representable iff k*e < BITS");
+            if fits_u { assert!(dbit(&v.dg(), j) == (j as u64 == sh), "the power is the single bit k*e"); }
+            else { assert!(!dbit(&v.dg(), j), "the wrapped power of two is zero"); }
+            match ub.checked_pow(e) { Some(x) => assert!(fits_u && deq(&x.dg(), &v.dg()), "checked_pow Some"), None => assert!(!fits_u, "checked_pow None") }
+            assert!(deq(&ub.wrapping_pow(e).dg(), &v.dg()), "wrapping_pow");
+            assert!(dbit(&ub.saturating_pow(e).dg(), j) == if fits_u { j as u64 == sh } else { true }, "saturating_pow (MAX on overflow)");
+            // signed bases 2^k and -2^k
+            let pb = <$I>::from_bits(ub);
+            let nb = pb.wrapping_neg();
+            let odd = e & 1 == 1;
+            let fits_p = sh < W - 1;
+            let fits_n = sh < W - 1 || (sh == W - 1 && odd); // (-2^k)^e = -2^(BITS-1) = MIN
+            let (pv, pf) = pb.overflowing_pow(e);
+            assert!(pf == !fits_p, "signed flag, positive base");
+            if fits_p { assert!(dbit(&pv.dg(), j) == (j as u64 == sh), "positive power"); }
+            let (nv, nf) = nb.overflowing_pow(e);
+            assert!(nf == !fits_n, "signed flag, negative base (MIN is representable)");
+            if fits_n {
+                // value: 2^sh for even e, -2^sh for odd e (bits sh.. set)
+                let want = if odd { j as u64 >= sh } else { j as u64 == sh };
+                assert!(dbit(&nv.dg(), j) == want, "negative base: sign follows the parity of the exponent");
+            }
+            match nb.checked_pow(e) { Some(x) => assert!(fits_n && deq(&x.dg(), &nv.dg()), "signed checked_pow Some"), None => assert!(!fits_n, "signed checked_pow None") }
+            // saturating: MAX for a positive overflow, MIN for a negative base with an odd exponent
+            let sat = nb.saturating_pow(e).dg();
+            let want_sat = if fits_n { if odd { j as u64 >= sh } else { j as u64 == sh } } else if odd { j as u64 == W - 1 } else { (j as u64) < W - 1 };
+            assert!(dbit(&sat, j) == want_sat, "signed saturating_pow");
+            $crate::reach!(sh == W - 1 && odd, "(-2^k)^e == MIN");
+            $crate::reach!(fits_u && e > 1, "representable power");
+            $crate::reach!(e > 1000, "large exponent");
+        });
+    };
+}
+
+/// ilog with a CONCRETE power-of-two base 2^k on wide values whose most significant digit is concrete (the bit length is then a constant):
+/// the recursive squaring scheme (iilog) squares a constant base and divides the symbolic value by constants.  Exact result: floor((bits - 1) / k).
+#[macro_export]
+macro_rules! c08_ilog_pow2 {
+    ($name:ident, $unw:expr, $U:ty, $I:ty, $D:ty, $N:expr, $K:expr, $top:expr) => {
+        $crate::harness!($name, $unw, {
+            use $crate::util::*;
+            const DB: u32 = <$D>::BITS;
+            let mut xd: [$D; $N] = $crate::nd::nd();
+            let top: $D = $top;
+            xd[$N - 1] = top;
+            let x = <$U as BN<$D, $N>>::mk(xd);
+            let bits: u32 = ($N as u32 - 1) * DB + (DB - top.leading_zeros());
+            let want: u32 = (bits - 1) / $K;
+            let base = <$U>::power_of_two($K);
+            assert!(x.checked_ilog(base) == Some(want), "ilog(2^k) == floor((bits - 1) / k)");
+            assert!(x.ilog(base) == want, "ilog");
+            // signed: same for positive values (top bit clear), None for negative ones
+            let s = <$I>::from_bits(x);
+            let sb = <$I>::from_bits(base);
+            if dneg(&xd) { assert!(s.checked_ilog(sb).is_none(), "ilog of a negative value is None"); }
+            else { assert!(s.checked_ilog(sb) == Some(want), "signed ilog"); }
+            $crate::reach!(want > 1, "multi-step recursion");
+        });
+    };
+}
